@@ -267,22 +267,22 @@ func (c *Ctx) Finish(verifDir string, known *KnownFile, start time.Time, archs [
 			"mutex identity is per (type, field); call-graph over-approximation may add callers, never lose them",
 		},
 		"coverage": map[string]any{
-			"explanation":          fmt.Sprintf("Static analysis of /repo's working tree (type-checked AST + go/ssa + VTA call graph, no execution). %d obligations over %d distinct rule instances decided; %d discharged, %d failed-and-listed in known_findings.json, %d unlisted violations. Each rule is a structural necessary condition of %s (DESIGN.md §4); the behavioural property itself is not decided.", total, len(distinct), discharged, len(khits), len(viol), c.Prop),
-			"evaluations":          total,
-			"distinct_nontrivial":  len(distinct),
-			"obligations":          total,
-			"discharged":           discharged,
-			"known_findings_hit":   len(khits),
-			"stale_known_findings": stale,
-			"rule":                 "an obligation is one (rule, object-based instance key) pair enumerated from the resolved program; it is non-trivial when the rule's pattern matched a concrete construct in /repo (vacuous matches are excluded by per-rule instance floors)",
-			"rules":                rules,
-			"samples":              samples,
-			"all_instances":        all,
-			"analysed":             c.Analysed,
-			"packages":             pkgs,
-			"build_configs":        archs,
-			"notes":                c.Notes,
-			"errors":               c.Errors,
+			"explanation":           fmt.Sprintf("Static analysis of /repo's working tree (type-checked AST + go/ssa + VTA call graph, no execution). %d obligations over %d distinct rule instances decided; %d discharged, %d failed-and-listed in known_findings.json, %d unlisted violations. Each rule is a structural necessary condition of %s (DESIGN.md §4); the behavioural property itself is not decided.", total, len(distinct), discharged, len(khits), len(viol), c.Prop),
+			"evaluations":           total,
+			"distinct_nontrivial":   len(distinct),
+			"obligations":           total,
+			"discharged":            discharged,
+			"known_findings_hit":    len(khits),
+			"stale_known_findings":  stale,
+			"rule":                  "an obligation is one (rule, object-based instance key) pair enumerated from the resolved program; it is non-trivial when the rule's pattern matched a concrete construct in /repo (vacuous matches are excluded by per-rule instance floors)",
+			"rules":                 rules,
+			"samples":               samples,
+			"all_instances":         all,
+			"analysed":              c.Analysed,
+			"packages":              pkgs,
+			"build_configs":         archs,
+			"notes":                 c.Notes,
+			"errors":                c.Errors,
 			"interprocedural_bound": c.Depth,
 		},
 	}
